@@ -16,13 +16,13 @@ variable {α β : Type}
 /-! ### the two forms -/
 
 theorem DecOK.toIf {c : PCodec α} (h : DecOK c) (L : α → Prop) : DecOKIf c L :=
-  fun d p v p' hd => ⟨(h d p v p' hd).1, fun _ => (h d p v p' hd).2⟩
+  fun d p v p' hd _ => h d p v p' hd
 
 theorem DecOKIf.ofTrue {c : PCodec α} (h : DecOKIf c (fun _ => True)) : DecOK c :=
-  fun d p v p' hd => ⟨(h d p v p' hd).1, (h d p v p' hd).2 trivial⟩
+  fun d p v p' hd => h d p v p' hd trivial
 
 theorem DecOKIf.mono {c : PCodec α} {L L' : α → Prop} (h : DecOKIf c L) (hl : ∀ v, L' v → L v) : DecOKIf c L' :=
-  fun d p v p' hd => ⟨(h d p v p' hd).1, fun l => (h d p v p' hd).2 (hl v l)⟩
+  fun d p v p' hd l => h d p v p' hd (hl v l)
 
 /-- `dec_returns_encodable`: whatever the reader returns, `tobytes()` succeeds on -/
 theorem DecOK.encodable {c : PCodec α} (h : DecOK c) {d : B} {p : Nat} {v : α} {p' : Nat} (hd : c.dec d p = .ok (v, p')) :
@@ -31,13 +31,12 @@ theorem DecOK.encodable {c : PCodec α} (h : DecOK c) {d : B} {p : Nat} {v : α}
 
 theorem DecOKIf.encodable {c : PCodec α} {L : α → Prop} (h : DecOKIf c L) {d : B} {p : Nat} {v : α} {p' : Nat}
     (hd : c.dec d p = .ok (v, p')) (hl : L v) : Encodable c v :=
-  ⟨c.encT v, by simp only [PCodec.enc, if_pos ((h d p v p' hd).2 hl)]⟩
+  ⟨c.encT v, by simp only [PCodec.enc, if_pos (h d p v p' hd hl).2]⟩
 
 /-- the three clauses of the property for one payload: `DecOK` + C01's round trip -/
 theorem stableIf_of {c : PCodec α} {L : α → Prop} (h : DecOKIf c L) (hr : c.RtAtEnd) : StableIf c L := by
   intro b v n hd hl
-  obtain ⟨hwf, hf⟩ := h b 0 v n hd
-  have hfits := hf hl
+  obtain ⟨hwf, hfits⟩ := h b 0 v n hd hl
   have henc : c.enc v = .ok (c.encT v) := by simp only [PCodec.enc, if_pos hfits]
   have hrt := hr v hwf hfits (c.encT v) 0 (At.self _) (by omega)
   simp only [Nat.zero_add] at hrt
@@ -70,18 +69,19 @@ theorem seq_decOKIf {a : PCodec α} {b : PCodec β} {La : α → Prop} {Lb : β 
     · rename_i y hy
       obtain ⟨y1, q'⟩ := y
       cases hd
-      obtain ⟨w1, f1⟩ := ha d p x1 q hx
-      obtain ⟨w2, f2⟩ := hb d q y1 _ hy
-      exact ⟨⟨w1, w2⟩, fun l => ⟨f1 l.1, f2 l.2⟩⟩
+      intro l
+      obtain ⟨w1, f1⟩ := ha d p x1 q hx l.1
+      obtain ⟨w2, f2⟩ := hb d q y1 _ hy l.2
+      exact ⟨⟨w1, w2⟩, ⟨f1, f2⟩⟩
 
 theorem seq_decOK {a : PCodec α} {b : PCodec β} (ha : DecOK a) (hb : DecOK b) : DecOK (seq a b) :=
   ((seq_decOKIf (ha.toIf (fun _ => True)) (hb.toIf (fun _ => True))).mono (L' := fun _ => True) (fun _ _ => ⟨trivial, trivial⟩)).ofTrue
 
 theorem items_ok {c : PCodec α} {L : α → Prop} (hc : DecOKIf c L) {d : B} {vs : List α}
-    (h : ∀ x ∈ vs, FromItem c.dec d x) : (∀ v ∈ vs, c.WF v) ∧ ((∀ v ∈ vs, L v) → listFits c.Fits vs) := by
-  refine ⟨fun v hv => ?_, fun hl v hv => ?_⟩
-  · obtain ⟨q, q', hq⟩ := h v hv; exact (hc d q v q' hq).1
-  · obtain ⟨q, q', hq⟩ := h v hv; exact (hc d q v q' hq).2 (hl v hv)
+    (h : ∀ x ∈ vs, FromItem c.dec d x) (hl : ∀ v ∈ vs, L v) : (∀ v ∈ vs, c.WF v) ∧ listFits c.Fits vs := by
+  refine ⟨fun v hv => ?_, fun v hv => ?_⟩
+  · obtain ⟨q, q', hq⟩ := h v hv; exact (hc d q v q' hq (hl v hv)).1
+  · obtain ⟨q, q', hq⟩ := h v hv; exact (hc d q v q' hq (hl v hv)).2
 
 theorem counted_decOKIf {c : PCodec α} {L : α → Prop} (w : Nat) (hc : DecOKIf c L) :
     DecOKIf (counted w c) (fun vs => ∀ v ∈ vs, L v) := by
@@ -93,8 +93,9 @@ theorem counted_decOKIf {c : PCodec α} {L : α → Prop} (w : Nat) (hc : DecOKI
     obtain ⟨n, q⟩ := x
     simp only at hd
     obtain ⟨hlen, hitems⟩ := readCount_ok hd
-    obtain ⟨hw, hf⟩ := items_ok hc hitems
-    refine ⟨hw, fun hl => ⟨?_, hf hl⟩⟩
+    intro hl
+    obtain ⟨hw, hf⟩ := items_ok hc hitems hl
+    refine ⟨hw, ⟨?_, hf⟩⟩
     rw [hlen]; exact (readU_ok hx).1
 
 theorem counted_decOK {c : PCodec α} (w : Nat) (hc : DecOK c) : DecOK (counted w c) :=
@@ -104,7 +105,8 @@ theorem exactly_decOKIf {c : PCodec α} {L : α → Prop} (n : Nat) (hc : DecOKI
     DecOKIf (exactly n c) (fun vs => ∀ v ∈ vs, L v) := by
   intro d p vs p' hd
   obtain ⟨hlen, hitems⟩ := readCount_ok (show readCount c.dec n d p = .ok (vs, p') from hd)
-  obtain ⟨hw, hf⟩ := items_ok hc hitems
+  intro hl
+  obtain ⟨hw, hf⟩ := items_ok hc hitems hl
   exact ⟨⟨hlen, hw⟩, hf⟩
 
 theorem exactly_decOK {c : PCodec α} (n : Nat) (hc : DecOK c) : DecOK (exactly n c) :=
@@ -140,7 +142,8 @@ theorem checked_decOKIf {c : PCodec α} {L : α → Prop} {ok : α → Prop} [De
     split at hd
     · rename_i hok
       cases hd
-      obtain ⟨w1, f1⟩ := hc d p _ _ hx
+      intro l
+      obtain ⟨w1, f1⟩ := hc d p _ _ hx l
       exact ⟨⟨w1, hok⟩, f1⟩
     · cases hd
 
@@ -231,8 +234,9 @@ theorem blocked_decOKIf {c : PCodec α} {L : α → Prop} (w pad : Nat) (hc : De
     · rename_i y hy
       obtain ⟨v1, q'⟩ := y
       cases hd
-      obtain ⟨w1, f1⟩ := hc data 0 v1 q' hy
-      exact ⟨w1, fun l => ⟨f1 l.1, l.2⟩⟩
+      intro l
+      obtain ⟨w1, f1⟩ := hc data 0 v1 q' hy l.1
+      exact ⟨w1, ⟨f1, l.2⟩⟩
 
 /-- ... and that hypothesis is exact: the writer accepts a decoded block iff the re-encoded body fits the length field -/
 theorem blocked_fits_iff {c : PCodec α} (w pad : Nat) (v : α) (hf : c.Fits v) :
@@ -246,13 +250,27 @@ theorem optTail_decOKIf {c : PCodec α} {L : α → Prop} (hc : DecOKIf c L) : D
   · split at hd
     · rename_i v q hq
       cases hd
-      obtain ⟨w1, f1⟩ := hc d p _ _ hq
-      exact ⟨w1, f1⟩
+      intro l
+      exact hc d p _ _ hq l
     · cases hd
   · cases hd
-    exact ⟨trivial, fun _ => trivial⟩
+    exact fun _ => ⟨trivial, trivial⟩
 
 theorem optTail_decOK {c : PCodec α} (hc : DecOK c) : DecOK (optTail c) :=
   ((optTail_decOKIf (hc.toIf (fun _ => True))).mono (L' := fun _ => True) (fun o _ => by cases o <;> simp only [optFits])).ofTrue
+
+/-! ### inverting hand-written readers -/
+
+/-- invert one `match r with | .error e => .error e | .ok v => …` (or an `if` one of whose branches is an error) in `h`:
+the branches that cannot produce `.ok` are closed, the hypothesis is simplified -/
+syntax "ebind " ident : tactic
+macro_rules
+  | `(tactic| ebind $h) => `(tactic| ((split at $h:ident <;> first | (cases $h:ident; done) | skip); try simp only at $h:ident))
+
+theorem rows_ok {fs : List FI} (hok : fs.all FI.ok = true) {d : B} {xs : List Row}
+    (h : ∀ x ∈ xs, FromItem (fmtDec fs) d x) : listFits (fmtFits fs) xs ∧ ∀ x ∈ xs, fmtWF fs x := by
+  refine ⟨fun x hx => ?_, fun x hx => ?_⟩
+  · obtain ⟨q, q', hq⟩ := h x hx; exact (fmtDec_ok fs hok hq).1
+  · obtain ⟨q, q', hq⟩ := h x hx; exact (fmtDec_ok fs hok hq).2.1
 
 end PsdVerif.Payload3
